@@ -284,3 +284,41 @@ PLAN["C20"] = dict(
         dict(name="last TSV entry wins", file=PHASE, old="        if line_elements[0] not in phase:", new="        if True:", expect="add_phase_info#tsv", functions=[(PHASE, "add_phase_info#tsv")]),
     ],
 )
+
+_COLLECT = [(REALIGN, "realign_gaf#collector-full-groups"), (REALIGN, "realign_gaf#collector-leftover")]
+_C11_MUT = [
+    dict(name="fall through after the exit-code check (stale item)", file=REALIGN, old="                            sys.exit(1)\n                        continue", new="                            sys.exit(1)", expect="collector-full-groups", functions=_COLLECT[:1]),
+    dict(name="same in the leftover loop", file=REALIGN, old="                        sys.exit(1)\n                    continue", new="                        sys.exit(1)", expect="collector-leftover", functions=_COLLECT[1:]),
+    dict(name="sentinel counted for results", file=REALIGN, old="                if out_string_obj is None:  # sentinel counter to count finished processes", new="                if out_string_obj is not None:  # sentinel counter to count finished processes", expect="collector-full-groups", functions=_COLLECT[:1], quick=False),
+]
+PLAN["C11"] = dict(
+    level="other",
+    functions=_COLLECT,
+    explanation="PROVED relative to the assumed multiprocessing environment (DESIGN 3.5: get(timeout) may raise Empty at ANY time, or returns the next "
+                "object of SOME worker, per-producer FIFO, None last; liveness observations are arbitrary): for every number of workers, every "
+                "number of results per worker and every resolution of those choices, both collector loops consume each dequeued object exactly "
+                "once in the iteration that dequeued it (no stale or unbound use), keep every received result in p_queue exactly once (ghost "
+                "bijection), count exactly the sentinels received (ghost done / not-done prefix counts, pairwise-monotone, no induction needed), "
+                "and can only finish when every worker's sentinel - hence, by FIFO, every result - has been received. BOUNDED: the priority-queue "
+                "drain (input order), batching, and byte-identity with the single-core output on scripted fake-mp schedules and real processes.",
+    trusted_base=["multiprocessing.Queue / Process behave as the environment contract of DESIGN 3.5 (assumed)", "queue.PriorityQueue.get returns a minimum (assumed)",
+                  "drain loops, batching, wfa_alignment: BOUNDED stand-in only"],
+    not_applicable_clauses=["corruption of the queue pipe by a worker killed during a write is outside the environment contract (see C13 known finding)"],
+    mutations=_C11_MUT,
+)
+PLAN["C13"] = dict(
+    level="other",
+    functions=_COLLECT,
+    explanation="PROVED (safety half, same fragment and environment as C11): the collector loops return normally only after every worker's sentinel was "
+                "received, so a worker that died before delivering its sentinel can never lead to a normal return (success is never reported for "
+                "an output that is missing records); the only other way out is sys.exit(1) - exit status non-zero - and it is taken only when "
+                "some worker's exit code is not 0. BOUNDED: every kill point x schedule with the fake mp, and real processes killed at each "
+                "point (non-zero exit within a wall-clock limit). NOT APPLICABLE to this technique: that the wait on a live worker is finite "
+                "(liveness under OS scheduling fairness).",
+    trusted_base=["multiprocessing environment contract (assumed)", "Process.is_alive / exitcode observations are arbitrary but truthful at the moment of the call (assumed)"],
+    not_applicable_clauses=["'never hangs' as liveness: needs scheduler fairness; only the classification 'the sole stuttering iteration is: queue empty while a worker is alive' is in reach",
+                            "known finding 'worker-dies-mid-delivery' (known_findings.json): a worker killed in the middle of a pipe write blocks the parent inside Queue.get"],
+    mutations=[
+        dict(name="exit status 0 on worker failure", file=REALIGN, old="                            sys.exit(1)\n                        continue", new="                            sys.exit(0)\n                        continue", expect="collector-full-groups", functions=_COLLECT[:1]),
+    ] + _C11_MUT[:1],
+)
